@@ -25,6 +25,22 @@ pub uninterp spec fn spec_clamp(t: f32, lo: f32, hi: f32) -> f32;
 pub assume_specification[ f32::clamp ](t: f32, lo: f32, hi: f32) -> (r: f32)
     ensures r == spec_clamp(t, lo, hi);
 
+/// The `Timeline` interface as far as `MergedTimeline::update` uses it: `update` is an arbitrary
+/// function of (timeline, previous target, time) - `spec_update` - i.e. every possible component.
+pub trait Timeline: Sized {
+    type Target;
+    spec fn spec_update(&self, values: Self::Target, time: f32) -> Self::Target;
+    fn update(&self, values: &mut Self::Target, time: f32)
+        ensures *final(values) == self.spec_update(*old(values), time);
+}
+
+/// C12: applying the first `n` components in order to the same target at the same time.
+pub open spec fn fold_update<T: Timeline>(ts: Seq<T>, v: T::Target, time: f32, n: int) -> T::Target
+    decreases n
+{
+    if n <= 0 { v } else { ts[n - 1].spec_update(fold_update(ts, v, time, n - 1), time) }
+}
+
 /// Marker only: the extracted functions never call `lerp`.
 pub trait Lerp { }
 
